@@ -90,6 +90,7 @@ def run(chk, tier):
     chk.guarded(c13.r_sign_arms, P, tier)
     chk.guarded(c10.r_own_ranges, P, tier)
     chk.guarded(r_month_from_str, P, tier)
+    chk.guarded(r_plain_year, P, tier)
     chk.assume("sign/width of out-of-range years, the 0/3/6/9 fraction digits, second 60 and offset padding (the round trip itself) are NOT decided")
     return {
         "explanation": "Narrow claim for C09: the default writers and the readers agree structurally. The separator/placeholder skeleton written by Debug (and Display) of "
@@ -274,3 +275,16 @@ def r_month_from_str(chk, P, tier):
         if k in got:
             chk.expect(got[k] == names[k], "index %d" % k, "Month::from_str maps scanned index %d to %s, expected %s" % (k, got[k], names[k]), loc=P.loc(fn))
     chk.expect(len(got) >= 11, "arms", "only %d indexed arms found in Month::from_str" % len(got))
+
+
+def r_plain_year(chk, P, tier):
+    """NaiveDate's Debug writes the year as two digit pairs exactly for 0..=9999 (write_hundreds refuses 100, i.e. year 10000, with a formatting error that
+    to_string() turns into a panic) and with an explicit sign and at least five digits otherwise (the reader requires the sign for more than four digits)"""
+    from props.c10 import plain_year_boxes
+    fn = "<naive::date::NaiveDate as std::fmt::Debug>::fmt"
+    chk.rule("BOX.plain_year", "NaiveDate's Debug::fmt uses the plain four-digit year form (write_hundreds(year / 100), write_hundreds(year % 100)) exactly for 0..=9999", floor=1)
+    boxes = plain_year_boxes(P, fn)
+    lo = min((b[0] for b in boxes if b[0] is not None), default=None)
+    hi = max((b[1] for b in boxes if b[1] is not None), default=None)
+    ok = all(b[0] is not None and b[1] is not None for b in boxes) and (lo, hi) == (0, 9999)
+    chk.expect(ok, "year range", "NaiveDate's Debug takes the four-digit form for years in %s, expected exactly 0..=9999" % sorted(set(boxes)), loc=P.loc(fn))
